@@ -64,3 +64,45 @@ contract(f"{DBQ}.remove", props=["C12", "C16", "C13"], mode="int", spec_module="
                   "every_other_record_stays_under_its_identifier": "all(self.database[k] is old_value(self, k) for k in self.database)",
                   "reports_whether_something_was_removed": "result == (first_equal_key(self, data_object) is not None)"},
          cover=["result", "not result"])
+
+
+# ------------------------------------------------------------------------------------------- area-based maintenance
+CL = f"{LDM}.ldm_classes"
+AREA = T.rec(f"{CL}:Location",
+             reference_position=T.rec(f"{CL}:ReferencePosition", latitude=T.int(-900000000, 900000001), longitude=T.int(-1800000000, 1800000001),
+                                      position_confidence_ellipse=T.opaque("object"), altitude=T.rec(f"{CL}:Altitude", altitude_value=T.int(-100000, 800001), altitude_confidence=T.int(0, 15))),
+             reference_area=T.rec(f"{CL}:ReferenceArea", geometric_area=T.opaque("object"),
+                                  relevance_area=T.rec(f"{CL}:RelevanceArea", relevance_distance=T.rec(f"{CL}:RelevanceDistance", relevance_distance=T.int(0, 7)),
+                                                       relevance_traffic_direction=T.opaque("object"))))
+LOCREC = T.dict(_open=True, location=T.dict(_open=True, referencePosition=T.dict(_open=True, latitude=T.int(-900000000, 900000001), longitude=T.int(-1800000000, 1800000001),
+                                                                                  altitude=T.dict(_open=True, altitudeValue=T.int(-100000, 800001)))))
+
+
+def setup_area(e):
+    def h_store(e2, st, o, name, args, kwargs):
+        e2.used_assumptions.add("data store seen from maintenance: all() returns the 0..2 stored records (bounded), remove(record) removes it (ghost log)")
+        if name == "all":
+            for n in range(3):
+                s1, items = st, []
+                for k in range(n):
+                    s1, r = Maker(e2).make(s1, LOCREC, e2.fresh(f"record{k}"))
+                    items.append(r)
+                res = TupleV(items)
+                yield s1.ghost_append("stored", res), res
+        elif name == "remove":
+            yield st.ghost_append("removed", args[0]), NONE
+        else:
+            raise NotImplementedError(name)
+    e.opaque_handlers["loc_store"] = h_store
+    e.external_handlers["print"] = lambda e2, st, a, k: iter([(st, NONE)])
+
+
+contract(f"{CL}:Utils.euclidian_distance", props=[], assumed=True, mode="int", spec_module="spec_ldm",
+         shapes={"point1": T.tuple(T.float(), T.float()), "point2": T.tuple(T.float(), T.float())},
+         ensures={"uf": "result == uf('euclid', 'real', point1[0], point1[1], point2[0], point2[1]) and result >= 0"}) if f"{CL}:Utils.euclidian_distance" not in __import__("pyvc.contracts").contracts.REGISTRY else None
+contract(f"{MT}.check_and_delete_area_of_maintenance", props=["C12"], mode="int", spec_module="spec_ldm", engine_setup=setup_area, frame_check=False,
+         float_as_real=True, bound="stores of 0..2 records",
+         shapes={"self": T.obj(MT, logging=T.opaque("logger"), data_containers=T.opaque("loc_store"), area_of_maintenance=AREA, new_data_recieved_flag=T.int(0, 1))},
+         returns=T.opaque("object"), may_raise=["ValueError"],
+         ensures={"objects_inside_the_area_of_maintenance_are_kept": "all(not inside_area_of_maintenance(self, r) for r in ghost('removed'))"},
+         cover=["len(ghost('removed')) >= 1"])
